@@ -33,6 +33,8 @@ def attribute(req, event, ev=None, text=""):
         return "C04"
     if name in ("obs-rt",):
         return "C06"
+    if name in ("obs-cli",):
+        return "C16"
     if name in ("obs-grad",):
         return "C05"
     if name in ("obs-twin",):
@@ -374,12 +376,12 @@ def req_name(reqtext):
     return reqtext.strip('"')
 
 
-def run_grid(ctx, scen_sets, obs_mask, prop, chunk=30, timeout=240):
+def run_grid(ctx, scen_sets, obs_mask, prop, chunk=30, timeout=240, variant="hooks", env=None, tag="", keep_traces=None, exec_nproc=None, driver="grid_replay.cpp", own_all=False):
     """scen_sets: list of (label, [scenario text]).  Executes on the real library, validates with TLC,
     reports rejections that concern `prop`; others are counted as foreign (and examined by their own check)."""
-    lib = vf.build_lib("hooks")
-    drv = vf.compile_driver("grid_replay.cpp", lib)
-    wd = vf.workdir(prop.lower())
+    lib = vf.build_lib(variant)
+    drv = vf.compile_driver(driver, lib)
+    wd = vf.workdir(prop.lower() + tag)
     files = []
     nscen = 0
     for label, scens in scen_sets:
@@ -404,7 +406,12 @@ def run_grid(ctx, scen_sets, obs_mask, prop, chunk=30, timeout=240):
             attempts += 1
             part_s, part_t = sp + ".part", tp + ".part"
             open(part_s, "w").write("".join(scen_texts[start:]))
-            p = vf.sh([drv, part_s, part_t, str(obs_mask), wd], timeout=timeout)
+            if driver == "cli_replay.cpp":
+                own = tp + ".dir"
+                os.makedirs(own, exist_ok=True)
+                p = vf.sh([drv, part_s, part_t, os.path.join(lib, "tasgrid"), own], timeout=timeout, env=env)
+            else:
+                p = vf.sh([drv, part_s, part_t, str(obs_mask), wd], timeout=timeout, env=env)
             rows = vf.read_ndjson_lenient(part_t)
             if p.returncode == 0:
                 done_rows += rows
@@ -432,7 +439,7 @@ def run_grid(ctx, scen_sets, obs_mask, prop, chunk=30, timeout=240):
         vf.write_ndjson(tp, done_rows)
         return 0
 
-    vf.parallel_map(exec_one, files)
+    vf.parallel_map(exec_one, files, nproc=exec_nproc)
     for c in crashes:
         act = c["crashing_line_approx"].split()
         act = [a for a in act if not a.startswith("@")]
@@ -457,6 +464,8 @@ def run_grid(ctx, scen_sets, obs_mask, prop, chunk=30, timeout=240):
                 owner = "C08"
             st = ev.get("st", {})
             sig = "%s:%s:%s:%s%s" % (ev.get("e", "?"), name, st.get("fam", "?"), sig_detail(ev, rj), sig_suffix(ev))
+            if own_all:
+                owner = prop          # every state in these traces was produced by the front end under test
             if owner != prop:
                 foreign[owner] = foreign.get(owner, 0) + 1
                 ctx.extra.setdefault("foreign_samples", [])
@@ -468,7 +477,10 @@ def run_grid(ctx, scen_sets, obs_mask, prop, chunk=30, timeout=240):
                        {"scenario_file": f[1], "trace_file": f[2], "scenario": rj["scenario"], "line_in_execution": rj["line"],
                         "prefix": rj["prefix"], "event": ev,
                         "how": "build/<hooks>/drv-grid_replay <scenario_file> out.ndjson %d . ; TRACE=out.ndjson tlc -workers 1 -config spec/GridTrace.cfg spec/GridTrace.tla" % obs_mask})
-    ctx.extra["executions_recorded"] = nscen
+    if keep_traces is not None:
+        for f in files:
+            keep_traces[os.path.basename(f[1])] = f[2]
+    ctx.extra["executions_recorded"] = ctx.extra.get("executions_recorded", 0) + nscen
     ctx.extra["rejections_owned_by_other_properties"] = foreign
     if files:
         rows = vf.read_ndjson(files[0][2])
